@@ -192,8 +192,18 @@ def merge3(base, ann, cur, dropped=None, coarse=False):
         hi = n
         while hi > lo and m[hi - 1] is not None:
             hi -= 1
+        gone = set()    # ghost variables whose declaration is dropped
         for g in list(runs):
             if lo <= g <= hi and runs[g][0] in ("proof", "assert", "let", "broadcast", "assume"):
+                r_ = runs[g]
+                for k in range(len(r_) - 2):
+                    if r_[k] == "let" and r_[k + 1] == "ghost":
+                        gone.add(r_[k + 3] if r_[k + 2] == "mut" else r_[k + 2])
+                dropped.append(" ".join(runs[g][:16]))
+                del runs[g]
+        # hints outside the rewritten part that talk about a ghost variable declared inside it go too
+        for g in list(runs):
+            if gone and runs[g][0] in ("proof", "assert", "assume") and any(t in gone for t in runs[g]):
                 dropped.append(" ".join(runs[g][:16]))
                 del runs[g]
     # where do the runs go in cur?  after[c] = runs placed after cur[c] (c = -1: at the very start)
